@@ -86,6 +86,9 @@ func randItem(r *Rng, depth int) Sx {
 }
 
 func randKey(r *Rng) []Sx {
+	if r.Chance(1, 14) { // a key callback that writes nothing
+		return []Sx{}
+	}
 	switch r.Intn(5) {
 	case 0:
 		return []Sx{it("u", Zu(uint64(r.Intn(40))))}
@@ -112,7 +115,11 @@ func randMap(r *Rng, depth int, n int) Sx {
 		for j := 0; j < nv; j++ {
 			v = append(v, randItem(r, depth))
 		}
-		ents = append(ents, L(L(k...), L(v...)))
+		if r.Chance(1, 16) { // the same entry object twice
+			ents = append(ents, L(L(k...), L(v...), Sym("twice")))
+		} else {
+			ents = append(ents, L(L(k...), L(v...)))
+		}
 		if r.Chance(1, 10) && len(ents) > 0 { // duplicate key
 			ents = append(ents, L(L(k...), L(it("u", Zi(7)))))
 		}
@@ -405,6 +412,43 @@ func genC12(r *Rng, tier string) []Case {
 			in[r.Intn(len(in))] ^= byte(1 << uint(r.Intn(8)))
 		}
 		dec(kinds, in)
+	}
+	// one decoder, many segments: failed calls (truncated heads / contents, wrong type,
+	// bad UTF-8) followed by good ones on the same decoder object
+	ns := 300
+	if tier == "thorough" {
+		ns = 8000
+	}
+	for i := 0; i < ns; i++ {
+		segs := []Sx{}
+		for j := r.Range(2, 6); j > 0; j-- {
+			var in []byte
+			kinds := []Sx{}
+			for q := r.Range(1, 4); q > 0; q-- {
+				k := decKinds[r.Intn(5)]
+				v := u64Edges[r.Intn(len(u64Edges))]
+				if k == "bytes" || k == "text" {
+					v = uint64(r.Intn(40))
+				}
+				w := []int{0, 1, 2, 4, 8}[r.Intn(5)]
+				if w == 0 && v > 23 || w == 1 && v > 0xff || w == 2 && v > 0xffff || w == 4 && v > 0xffffffff {
+					w = 8
+				}
+				in = append(in, headBytes(majorOf[k], w, v)...)
+				if k == "bytes" || k == "text" {
+					in = append(in, asciiBytes(r, int(v))...)
+				}
+				if r.Chance(1, 10) {
+					k = decKinds[r.Intn(5)]
+				}
+				kinds = append(kinds, Sym(k))
+			}
+			if r.Chance(1, 2) && len(in) > 0 { // cut inside the last item: head or content
+				in = in[:len(in)-1-r.Intn(minInt(len(in), 9))]
+			}
+			segs = append(segs, L(L(kinds...), B(in)))
+		}
+		cs = append(cs, Case{"cbor_dec_segments", segs})
 	}
 	return cs
 }
